@@ -332,6 +332,18 @@ pub fn run_k(toks: &[&str]) -> String {
             _ => "INVALID".to_string(),
         },
         "mul_like" => with_type!(a[0], T => mul_like_k0::<T>(u(1), u(2), a[3], a[4])),
+        "zst_swap" => {
+            // swap_rows (which = 0) / swap_cols (1) on an nrows x ncols matrix of `()`
+            let mut m = Matrix::<()>::with_value((u(1), u(2)), ()).expect("zero-sized matrix");
+            if a[3] != 0 {
+                m.switch_order();
+            }
+            let r = if a[0] == 0 { m.swap_rows(u(4), u(5)).map(|_| ()) } else { m.swap_cols(u(4), u(5)).map(|_| ()) };
+            match r {
+                Ok(()) => "()".to_string(),
+                Err(e) => format!("Err({})", err_name(e)),
+            }
+        }
         "autotraits" => text(&crate::traits::autotraits()),
         "scalar_forms" => text(&crate::scalar::scalar_forms(a[0], a[1])),
         "scalar_neg" => text(&crate::scalar::scalar_neg(a[0])),
